@@ -707,11 +707,13 @@ def check_c14(c, result):
         toks = toks[:si] + (['&&'] if 'WHERE' in toks[:si] else ['WHERE']) + ['6', '/', '2', '*', '3', '-', '1', '==', '8'] + toks[si:]
         one = ' '.join(toks)
         ref = cli_locs(['query', '--disable-metrics', '--project', c.proj, '--output', 'json', '--query', one])
-        layouts = [('every token on its own line', '\n'.join(toks) + '\n'), ('crlf, indented', '\r\n\t'.join(toks) + '\r\n')]
+        layouts = [('every token on its own line', '\n'.join(toks) + '\n'), ('crlf, indented', '\r\n\t'.join(toks) + '\r\n'),
+                   ('a lone carriage return between the tokens', '\r'.join(toks) + '\n'),
+                   ('carriage return / line feed / tab in turn', ''.join(t + ['\r', '\n', '\t', ' \r', '\r '][j % 5] for j, t in enumerate(toks)) + '\n')]
         for bi in range(1, len(toks)):
             if toks[bi] in ('*', '/', '-', '!', '(', '.', '==', '&&') and c.rng.random() < 0.5:
                 layouts.append(('line break before token %d (%s)' % (bi, toks[bi]), ' '.join(toks[:bi]) + '\n    ' + ' '.join(toks[bi:]) + '\n'))
-        for name, body in layouts[:8 if c.tier == 'quick' else 40]:
+        for name, body in layouts[:10 if c.tier == 'quick' else 40]:
             nfile += 1
             rdir = '%s/c14rules%d' % (c.work, nfile)
             os.makedirs(rdir, exist_ok=True)
